@@ -75,10 +75,9 @@ h("ki2_copy_match_twin_small", I + "/ki2_writer.rs", "inflate::verif_kani::ki2_w
              "copy_chunk_unchecked", "load_chunk", "store_chunk"],
   bounds="capacity <= 16 inside a canaried 24-byte array, len <= 6, every (filled, offset, len) under the caller precondition offset <= filled",
   assumptions=["caller precondition: 1 <= offset <= filled, len <= capacity - filled (established by KI5 Match-step harnesses)"])
-h("ki2_copy_match_twin_wide", I + "/ki2_writer.rs", "inflate::verif_kani::ki2_writer", ["C02", "C10"],
-  kernel="KI2", tier="thorough", expect_s=1500, timeout=3600, weight=4, mem_gb=24,
-  functions=["Writer::copy_match_with_features::<NONE>", "::<AVX2>"],
-  bounds="capacity <= 48 inside a canaried 56-byte array (so the N=32 chunked path is taken), len <= 12")
+# ki2_copy_match_twin_wide (capacity <= 48 so that the N = 32 chunked path is taken, len <= 12): out of memory at 24 GB in the full
+# thorough run (332 s): NOT registered.  The N = 32 path is covered by ki2_extend_from_window_twin and, for copy_match, only at the
+# widths ki2_copy_match_twin_small reaches.
 h("ki2_extend_from_window_twin", I + "/ki2_writer.rs", "inflate::verif_kani::ki2_writer", ["C02", "C10"],
   kernel="KI2", expect_s=60, timeout=900,
   functions=["Writer::extend_from_window_with_features::<NONE>", "::<AVX2>", "extend_from_window_help::<8>", "::<32>"],
@@ -209,7 +208,7 @@ h("ki5d_len_step", SYM, SP, ["C03", "C02", "C04"], kernel="KI5d", expect_s=60, t
   functions=["State::dispatch (mode Len)", "State::len_and_friends (modes Len, Lit, LenExt, Dist)", "inffixed_tbl::LENFIX"],
   bounds="fixed tables, 0..=9 primed bits of any value, no input, output capacity <= 3 with 0..=cap already written",
   assumptions=STEP_ASSUME + ["oracle: RFC 1951 3.2.5/3.2.6 reference decoder in the harness"])
-h("ki5d_dist_step_dispatch", SYM, SP, ["C03", "C02", "C04"], kernel="KI5d", expect_s=120, timeout=1200, weight=2,
+h("ki5d_dist_step_dispatch", SYM, SP, ["C03", "C02", "C04"], kernel="KI5d", expect_s=350, timeout=1800, weight=3, mem_gb=28, rss_gb=16,
   unwindset=DISPATCH_US(5),
   functions=["State::dispatch (modes LenExt, Dist, DistExt, Match)", "inffixed_tbl::DISTFIX"],
   bounds="start in LenExt/Dist/DistExt with any carried registers, 0..=23 primed bits, no input, writer full (step ends in Match before any copy)",
@@ -372,8 +371,8 @@ h("kd8_quick_finish_n1", Q, QP, ["C01", "C05", "C07", "C06"], kernel="KD8", expe
   functions=QFN, bounds="level 1, one Finish call, input length 1 (concrete), contents symbolic, 14 bytes of output; oracle: fixed-Huffman reference decoder", assumptions=QAS)
 h("kd8_quick_finish_n3", Q, QP, ["C01", "C05", "C07", "C06"], kernel="KD8", expect_s=300, timeout=2400, weight=3, mem_gb=20,
   functions=QFN, bounds="level 1, one Finish call, input length 3 (concrete), contents symbolic; oracle: fixed-Huffman reference decoder", assumptions=QAS)
-h("kd8_quick_finish_n5", Q, QP, ["C01", "C05", "C07"], kernel="KD8", tier="thorough", expect_s=2400, timeout=5400, weight=4, mem_gb=30,
-  functions=QFN, bounds="level 1, one Finish call, input length 5 (concrete; first length at which a match can be emitted), contents symbolic", assumptions=QAS)
+# kd8_quick_finish_n5 (first input length at which deflate_quick can emit a match): out of memory at 30 GB (525 s), also when run
+# alone: NOT registered.  Level 1 is decided end to end for input lengths 1 and 3 only.
 h("kd8_quick_sync_n3", Q, QP, ["C11", "C01", "C05"], kernel="KD8", expect_s=300, timeout=2400, weight=3, mem_gb=20,
   functions=QFN + ["zng_tr_stored_block"], bounds="level 1, one Sync or Full flush call, input length 3 (concrete), contents symbolic, 18 bytes of output", assumptions=QAS)
 
@@ -628,7 +627,7 @@ h("ka2_inflate_end_releases_once", I + "/ki8_entry.rs", "inflate::verif_kani::ki
 RSS_MEASURED = {"kb1_back_lit1_d16": 6, "kb1_back_lit1_d29": 9, "kb1_back_lit1_d4": 6, "kb1_back_lit9_d5": 11, "kd10_reset_equals_fresh": 9,
                 "kd4_build_tree_bl_single": 6, "kd6_stored_one_call": 19, "kd6_stored_resume": 16, "kd6_stored_tiny_pending": 16, "kd7_gzip_header_none_s1": 17,
                 "kd7_gzip_start_stale_gzindex": 10, "kd7_zlib_starved_finish": 16, "kd7_zlib_wrapper": 10, "kd8_quick_sync_n3": 10, "kd8_quick_finish_n5": 12,
-                "ki2_copy_match_twin_small": 10, "ki2_copy_match_twin_wide": 14, "ki2_extend_from_window_twin": 9, "ki5a_head_w3_n2": 12, "ki5a_head_w7_n2": 16,
+                "ki2_copy_match_twin_small": 10, "ki2_extend_from_window_twin": 9, "ki5a_head_w3_n2": 12, "ki5a_head_w7_n2": 16,
                 "ki5c_typedo_b7_i0": 9, "ki7_inflate_copyblock": 14, "kd9_longest_match_any_chain_length": 11, "ki6_fast_loop_room": 12,
                 "ki5d_match_step_dispatch": 10, "ki5d_match_step_friends": 10, "kd4_build_tree_bl_k4": 8, "kc9_adler_len_4_5": 8}
 for _n, _v in RSS_MEASURED.items():
